@@ -106,7 +106,8 @@ Print Assumptions C04_extract_env.
    every NAME that env accepts, every DIR, every assignment list and every command *)
 Theorem C04_extract_env_opts : forall opts assigns c0 cs,
   env_opts opts -> forallb assign_word assigns = true -> dash c0 = false -> has_eq c0 = false ->
-  env_h ($"env" :: opts ++ assigns ++ c0 :: cs) = HWords [c0 :: cs] false /  env_exec (opts ++ assigns ++ c0 :: cs) = Some [c0 :: cs].
+  env_h ($"env" :: opts ++ assigns ++ c0 :: cs) = HWords [c0 :: cs] false /\
+  env_exec (opts ++ assigns ++ c0 :: cs) = Some [c0 :: cs].
 Proof. exact env_extract_opts. Qed.
 Print Assumptions C04_extract_env_opts.
 
